@@ -145,7 +145,7 @@ public:
                 return *this;
             }
         }
-        finish = std::min(finish, upper);
+        finish = std::min(prev_value(upper), finish);
         return *this;
     }
 
